@@ -192,6 +192,9 @@ class C18(Prop):
         'whitespace-only strings (kept only in the private shadow list) are '
         'not used as material',
     )
+    probes = ('args', 'reach')
+    probed_every = 10
+    reach_required = ['data.TexArgs.append', 'data.TexArgs.extend', 'data.TexArgs.insert', 'data.TexArgs.remove', 'data.TexArgs.pop', 'data.TexArgs.reverse', 'data.TexArgs.clear', 'data.TexArgs.__getitem__', 'data.TexArgs.__str__', 'data.TexGroup.parse']
     min_nontrivial = 500
     budget_s = {'quick': 240, 'thorough': 2400}
     exhaustive = {
